@@ -29,6 +29,8 @@ func main() {
 		err = fam.RSLQuery(*scn, *out, *seed, *n)
 	case "propagation":
 		err = fam.Propagation(*scn, *out, *seed, *n)
+	case "reconcile":
+		err = fam.Reconcile(*scn, *out, *seed, *n)
 	case "trees":
 		err = fam.Trees(*scn, *out, *seed, *n)
 	case "policyapply":
